@@ -8,3 +8,4 @@ pub mod tov;
 pub use tov::ToVal;
 pub mod run;
 pub mod explore;
+pub mod body;
